@@ -109,7 +109,10 @@ def request_isolation(repo: Repo, run: Run) -> None:
     and never rebinds them (C02/R4).  That is a necessary condition of "repeating a request gives the same output"."""
     from . import c02
     probe = Run("C02", run.tier, run.repo_root)
-    c02.check(repo, probe)
+    try:
+        c02.check(repo, probe)
+    except AnalysisError:
+        pass            # what C02 established before it gave up is used; the floor below fails if the reset was not reached
     n = 0
     for o in probe.obligations:
         if o["rule"] == "R4" and ("cleared before any store" in o["construct"] or "never rebound" in o["construct"]
